@@ -1050,8 +1050,15 @@ func (x *microCtx) oracle() {
 		if hasOp("pub") && !hasOp("empty_topic") {
 			want++ // (a publish overlapping a topic empty may be discarded by it)
 		}
-		if len(x.deliv) < want {
-			x.bad("C01 C02 C08 message lost", "expected %d distinct messages to be delivered over the execution, saw %d: %s", want, len(x.deliv), x.delivSummary())
+		// (the probe publishes made at the idle point - mP, mQ - are not among the expected)
+		seen := 0
+		for id := range x.deliv {
+			if b := x.delivBody[id]; b != "mP" && b != "mQ" {
+				seen++
+			}
+		}
+		if seen < want {
+			x.bad("C01 C02 C08 message lost", "expected %d distinct messages (of m1, m2, m3) to be delivered over the execution, saw %d: %s", want, seen, x.delivSummary())
 		}
 		// ... individually: a message that was ever delivered and whose FIN was not accepted
 		// in the window must come round again in the drain (whoever holds it never answers, so
